@@ -248,6 +248,36 @@ def run(ctx):
                 ofails.append((f, dict(kind="archive", schema=schema, members=[], trusted=T, family=label)))
         if len(ofails) > 6:
             break
+    # ---- node states in the slots a loader reads as plain JSON (the bounds of a slice): whatever the loader makes of them, the
+    # rows must obey the sentences
+    def _obj(i, mod="verif_userclasses", cls="Plain"):
+        return {"__class__": cls, "__module__": mod, "__loader__": "ObjectNode", "__id__": i,
+                "content": {"__class__": "dict", "__module__": "builtins", "__loader__": "DictNode", "__id__": i + 1, "content": {},
+                            "key_types": {"__class__": "list", "__module__": "builtins", "__loader__": "ListNode", "__id__": i + 2, "content": []}}}
+
+    def _lst(i, items):
+        return {"__class__": "list", "__module__": "builtins", "__loader__": "ListNode", "__id__": i, "content": items}
+
+    bound_values = [_obj(50), _lst(60, [_obj(70)]), {"__class__": "Frame", "__module__": "mylib.arrays", "__loader__": "NdArrayNode", "__id__": 80,
+                                                      "type": "json", "content": [], "shape": {"__class__": "tuple", "__module__": "builtins",
+                                                                                               "__loader__": "TupleNode", "__id__": 81, "content": []}}]
+    for slot in ("start", "stop", "step"):
+        for bi, bv in enumerate(bound_values):
+            sl = {"__class__": "slice", "__module__": "builtins", "__loader__": "SliceNode", "__id__": 10,
+                  "content": dict({"start": None, "stop": 3, "step": None}, **{slot: bv})}
+            for label, root in ((f"slice-bound:{slot}:{bi}", sl), (f"slice-bound-in-list:{slot}:{bi}", _lst(11, [sl, _obj(90, cls="WithGetstate")]))):
+                schema = dict(root, protocol=_P, _skops_version="0")
+                data = ioarch.make_zip(schema, {})
+                for T in (None, [], ["verif_userclasses.Plain"], ["verif_userclasses.WithGetstate"]):
+                    try:
+                        got = impl_rows(data, T)
+                    except Exception:
+                        continue
+                    stats["raw_slot_family"] = stats.get("raw_slot_family", 0) + 1
+                    for f in sentences(got, data, T):
+                        ofails.append((f, dict(kind="archive", schema=schema, members=[], trusted=T, family=label)))
+        if len(ofails) > 6:
+            break
     for (c, T), m in zip(items, mo):
         try:
             got, err = impl_rows(c.data, T), None
